@@ -122,7 +122,7 @@ class Hist:
 
         ok = await rig.spa.struct.get(rig.protocol, create, 3)
         t1 = rig.w.now
-        self.ops.append(("REFRESH", start, length, ok))
+        self.ops.append(("REFRESH", start, length, ok, len(self.statu_snap) - n0))
         self.sh.count("refreshes")
         if not ok:
             self.sh.count("refresh_failed")
@@ -133,7 +133,12 @@ class Hist:
         t_req, content = self.statu_snap[-1]
         SEG = segment_size()
         end = min(start + (-(-length // SEG)) * SEG, 1024)
-        self.timeline.append((t1, "refresh", (start, content[start:end])))
+        # the request was sent more than once (retry) and the spa's bytes changed in between: the
+        # installed bytes may come from either answer (C01: the spa's value at some instant of the transfer)
+        alts = [c[start:end] for _, c in self.statu_snap[n0:-1] if c[start:end] != content[start:end]]
+        if alts:
+            self.sh.count("refreshes_with_ambiguous_content")
+        self.timeline.append((t1, "refresh", (start, content[start:end], alts)))
 
     # ---- oracle
     def check(self, base_block, d0, e0, label):
@@ -165,14 +170,25 @@ class Hist:
             tl.append((p["pops"][0][0], "statp", ch))
         tl.sort(key=lambda x: x[0])
         ref = base_block
+        either = {}  # byte position -> other admissible values (ambiguous refresh content)
         for t, kind, payload in tl:
             if kind == "statp":
                 ref = apply_changes(ref, payload)
+                for pos, data in payload:
+                    for k in range(len(data)):
+                        either.pop(pos + k, None)
             else:
-                st, content = payload
+                st, content, alts = payload
                 ref = ref[:st] + content + ref[st + len(content) :]
+                for k in range(len(content)):
+                    either.pop(st + k, None)
+                    vals = {a[k] for a in alts if k < len(a) and a[k] != content[k]}
+                    if vals:
+                        either[st + k] = vals
         got = rig.spa.struct.status_block
         sh.evaluations += 1
+        if len(got) == len(ref) and any(got[i] != ref[i] for i in either):
+            ref = bytes(got[i] if (i in either and got[i] in either[i]) else ref[i] for i in range(len(ref)))
         if got != ref:
             bad = [i for i in range(min(len(got), len(ref))) if got[i] != ref[i]][:6]
             # classify: replayed (value of an earlier, overwritten writer) / dropped
@@ -206,7 +222,15 @@ async def run_history(sh, rig, r, mode, nev):
     for round_ in range(nev):
         base = rig.spa.struct.status_block
         d0, e0 = len(rig.w.net.dgrams), len(rig.protocol.queue.events)
-        if mode == "serial":
+        if mode == "long":
+            # a long-lived connection: enough acknowledgements for the sequence counter to wrap twice
+            for _ in range(45):
+                h.statp(r.choice([1, 1, 2]))
+                await asyncio.sleep(r.choice([0.11, 0.15, 0.21]))
+            await rig.quiesce(settle=0.25)
+            h.check(base, d0, e0, "long")
+            sh.count("long_connection_rounds")
+        elif mode == "serial":
             x = r.random()
             if x < 0.45:
                 h.statp(r.choice([0, 1, 1, 2, 5, 12]))
@@ -259,6 +283,8 @@ def shard_async(sh: Shard, seed, wseed, regime, nhist, nev):
                 if not await rig.connect():
                     sh.inconc("rig could not connect")
                     return
+                if wseed == 0 and hi == 0:
+                    await run_history(sh, rig, r, "long", 10)
                 await run_history(sh, rig, r, "serial" if hi % 2 == 0 else "burst", nev)
 
             try:
@@ -291,10 +317,11 @@ def main(tier, seed):
     run.need(run.counters.get("histories_matched", 0) > 200, "too few histories compared")
     run.need(run.counters.get("acks_ok", 0) > 200, "too few acknowledgements observed")
     run.need(run.counters.get("sim_do_set", 0) > 20 and run.counters.get("silent_spa_changes", 0) > 20 and run.counters.get("refreshes", 0) > 20, "history ingredients missing")
+    run.need(run.counters.get("long_connection_rounds", 0) >= 10, "the long-lived connection (two sequence wrap-arounds of acknowledgements) was not driven")
     run.need("0" in run.sets.get("statp_sizes", set()), "no zero-change partial update sent")
     run.need(run.counters.get("statp_with_restoring_record", 0) > 20, "no partial update with a record restoring the previous value")
     return run.finish(
-        rule="histories of partial updates (0..12 changes of unique 2-byte values, repeated positions, the simulator's own 1-byte do_set form), silent spa-side changes and refreshes over the same positions; serial histories are compared after every event, burst histories (updates overlapping a refresh in time) after quiescence, against a reference that applies every delivered update once in processing order; one evaluation = one comparison point; distinct = distinct history prefixes",
+        rule="histories of partial updates (0..12 changes of unique 2-byte values, repeated positions, the simulator's own 1-byte do_set form), silent spa-side changes and refreshes over the same positions; serial histories are compared after every event, burst histories (updates overlapping a refresh in time) after quiescence, one long-lived connection with 450+ acknowledged updates (the sequence counter wraps twice), against a reference that applies every delivered update once in processing order; one evaluation = one comparison point; distinct = distinct history prefixes",
         assumptions=["fault-free network (loss is C01's subject)", "a refresh carries the spa content sampled when the simulator dispatched the STATU", "positions inside the block (a 2-byte change at byte 1023 would grow the block - outside the statement as read)"],
     )
 
